@@ -18,7 +18,7 @@ from .. import common, seq
 from ..evidence import Run
 
 ALPHA = ["a", ":", " ", "\r", "\n", "\x00", "\x0b", "\x85", "\xe9", "\u20ac", "\xa0"]
-PATHS = ["first", "recall", "mutated", "write", "filewrapper", "error", "swallow", "recall-swallow"]
+PATHS = ["first", "recall", "mutated", "mutated-inner", "write", "filewrapper", "error", "swallow", "recall-swallow"]
 HOP = ["connection", "keep-alive", "proxy-authenticate", "proxy-authorization", "te", "trailer", "transfer-encoding", "upgrade"]
 SERVER_LINE = {
     b"date": re.compile(rb"[A-Z][a-z]{2}, \d\d [A-Z][a-z]{2} \d{4} \d\d:\d\d:\d\d GMT\Z"),
@@ -59,6 +59,12 @@ def make_app(case):
             hl = [("X-Clean", "1")]
             start_response(status, hl)
             hl.append((name, value))
+            return [b"x"]
+        if path == "mutated-inner":
+            # header pairs given as (mutable) lists and changed after the call
+            pair = ["X-Late", "ok"]
+            start_response(status, [["X-Clean", "1"], pair])
+            pair[0], pair[1] = name, value
             return [b"x"]
         if path == "write":
             w = start_response(status, hostile)
@@ -162,6 +168,27 @@ def judge(case, wire, closed, escaped, worker_exc):
                 continue
             if not sep or rx is None or not rx.match(val):
                 v.append(("refused-field-emitted:" + path, f"line {ln!r} emitted although start_response refused the call; head={head!r}"))
+        return v, "accepted"
+    if path == "mutated-inner":
+        # what was validated is what must be sent: the pair as it was at the time of the call
+        want0 = V + lat(case["status"]) if isinstance(case["status"], str) and "\r" not in case["status"] and "\n" not in case["status"] else None
+        try:
+            ok0 = want0 is not None and lines[0] == want0
+        except UnicodeEncodeError:
+            ok0 = False
+        if not ok0:
+            v.append(("status-line", f"status line {lines[0]!r}"))
+        rest = [ln for ln in lines[1:]]
+        for need in (b"X-Clean: 1", b"X-Late: ok"):
+            if need in rest:
+                rest.remove(need)
+            else:
+                v.append(("validated-field-replaced:mutated-inner", f"field {need!r} (as validated by start_response) is not on the wire; head={head!r}"))
+        for ln in rest:
+            k, sep, val = ln.partition(b": ")
+            rx = SERVER_LINE.get(k.lower())
+            if not sep or rx is None or not rx.match(val):
+                v.append(("unvalidated-field-emitted:mutated-inner", f"line {ln!r} was never seen by start_response; head={head!r}"))
         return v, "accepted"
     if refuse and path != "mutated":
         v.append(("hostile-accepted:" + ("crlf" if any(isinstance(x, str) and ("\r" in x or "\n" in x) for x in (case["status"], case["name"], case["value"])) else "nonstr-or-hop"),
